@@ -38,7 +38,43 @@ fn gen_instance(rng: &mut Rng) -> Instance {
     }
 }
 
+/// Replaces the identifier `old` by `new` wherever it stands as a whole token of an Aspartix text.
+fn replace_ident(bytes: &[u8], old: &str, new: &str) -> Vec<u8> {
+    let is_id = |c: u8| c.is_ascii_alphanumeric() || c == b'_';
+    let o = old.as_bytes();
+    let mut out = Vec::with_capacity(bytes.len() + 8);
+    let mut i = 0;
+    while i < bytes.len() {
+        if bytes[i..].starts_with(o) && (i == 0 || !is_id(bytes[i - 1])) && (i + o.len() == bytes.len() || !is_id(bytes[i + o.len()])) {
+            out.extend_from_slice(new.as_bytes());
+            i += o.len();
+        } else {
+            out.push(bytes[i]);
+            i += 1;
+        }
+    }
+    out
+}
+
 fn gen_instance_any(rng: &mut Rng) -> Instance {
+    let mut inst = gen_instance_plain(rng);
+    // an Aspartix argument may be called like a sub-command or an option value: help, solve, h, ...
+    if inst.apx && !inst.names.is_empty() && rng.pct(12) {
+        let new = *rng.pick(&["help", "solve", "h", "authors", "problems", "check"]);
+        if !inst.names.iter().any(|n| n == new) {
+            let i = rng.below(inst.names.len());
+            let old = inst.names[i].clone();
+            // `arg` / `att` are keywords of the format, never renamed to or from
+            if old != "arg" && old != "att" {
+                inst.bytes = replace_ident(&inst.bytes, &old, new);
+                inst.names[i] = new.to_string();
+            }
+        }
+    }
+    inst
+}
+
+fn gen_instance_plain(rng: &mut Rng) -> Instance {
     if rng.pct(50) {
         let (bytes, n, atts) = gen_iccma_text(rng);
         Instance { apx: false, bytes, names: (1..=n).map(|i| i.to_string()).collect(), abs: Abs::new(n, atts) }
@@ -298,7 +334,18 @@ fn success_runs(ctx: &mut Ctx, rng: &mut Rng, dir: &Path) {
             return;
         }
     };
-    let file = match write_file(dir, if inst.apx { "inst.apx" } else { "inst.af" }, &inst.bytes) {
+    // file names a shell user can produce: with blanks, with a trailing blank, called like a sub-command
+    let fname: String = match rng.below(12) {
+        0 => "my instance.af".to_string(),
+        1 => "inst.af ".to_string(),
+        2 => "help".to_string(),
+        3 => "inst.apx\t".to_string(),
+        _ => if inst.apx { "inst.apx".to_string() } else { "inst.af".to_string() },
+    };
+    if fname != "inst.apx" && fname != "inst.af" {
+        ctx.count("success_runs/unusual-file-name");
+    }
+    let file = match write_file(dir, &fname, &inst.bytes) {
         Some(f) => f,
         None => {
             ctx.harness_error("cannot write instance");
